@@ -304,6 +304,11 @@ def c03_r2(ctx):
             ctx.viol((d.id, "ok-before-drain"), "Ok is returned on a path that did not exhaust the receiver loop", d.where(bb, idx))
         else:
             ctx.ok()
+    # a receiver whose sender hung up without a packet never delivered: no Ok after that
+    after_err = d.reach([x for (_, x) in err_edges])
+    late_oks = [(bb, idx) for (bb, idx) in oks if bb in after_err]
+    if late_oks and not _sticky_marker_guards(d, lp, err_edges, [bb for (bb, idx) in oks]):
+        ctx.viol((d.id, "hang-up-ignored"), "a receiver whose sender went away without sending (recv returned Err) can still be followed by the Ok return: the rule runs although one of its sources was never finished", rc.where)
 
 
 @rule("C04.R4", floor=1)
@@ -368,6 +373,48 @@ def c04_r4(ctx):
     ctx.viol((d.id, "cancel-not-sticky"),
              "a Cancel packet does not reliably prevent the Ok return (sets flag on every path=%s, flag set only on Cancel=%s, reset only before loop=%s, Ok guarded by flag=%s)" % (verdict or (None,) * 4),
              gt.where)
+
+
+def _sticky_marker_guards(d, lp, edges, ok_blocks):
+    """Some local is set (a bool to true, an Option to Some) on every path from `edges` back to
+    the loop header, is set nowhere else inside the loop, and every block of ok_blocks is
+    dominated by the test that finds it unset."""
+    for l, defs in d.defs.items():
+        ty = d.local_ty(l)["s"]
+        if l == 0 or not (ty == "bool" or ty.startswith("std::option::Option<")):
+            continue
+        sets, unsets, other = [], [], False
+        for (kind, bb, idx, place, rv) in defs:
+            if kind != "assign" or place["proj"]:
+                other = True
+                break
+            if ty == "bool" and rv["k"] == "use" and rv["op"]["k"] == "const" and rv["op"].get("bits") in ("0", "1"):
+                (sets if rv["op"]["bits"] == "1" else unsets).append(bb)
+            elif ty != "bool" and rv["k"] == "aggregate" and rv["kind"].get("k") == "adt" and rv["kind"].get("variant") in ("Some", "None"):
+                (sets if rv["kind"]["variant"] == "Some" else unsets).append(bb)
+            else:
+                other = True
+                break
+        if other or not sets:
+            continue
+        if not all(d.dominated_by_edges(b, edges) for b in sets) or any(b in lp["body"] for b in unsets):
+            continue
+        r = d.reach([x for (_, x) in edges], avoid_blocks=sets)
+        if lp["header"] in r:
+            continue
+        unset_edges = set()
+        for bb in d.live:
+            info = d.switch_info(bb)
+            if not info:
+                continue
+            if ty == "bool" and info["kind"] in ("value", "local") and info.get("place", {}).get("local", info.get("local")) == l \
+                    and not info.get("place", {}).get("proj"):
+                unset_edges |= d._bool_edges(info, False)
+            if ty != "bool" and info["kind"] == "variant" and info.get("place", {}).get("local") == l and not info["place"]["proj"]:
+                unset_edges |= {(bb, t) for (v, t) in info["targets"] if int(v) == 0}
+        if unset_edges and all(d.dominated_by_edges(b, unset_edges) for b in ok_blocks):
+            return True
+    return False
 
 
 def _drain_shape_gate(d):
@@ -725,6 +772,10 @@ def _falls_out_with_err(fn, lp, blocks):
     return lp["header"] not in r
 
 
+VEC_SHRINKING = {"dedup", "dedup_by", "dedup_by_key", "retain", "retain_mut", "truncate", "clear", "pop", "remove",
+                 "swap_remove", "drain", "split_off", "extract_if"}
+
+
 @rule("C04.R5", floor=1)
 def c04_r5(ctx):
     """One error per failed thread, none for cancelled: in the join loop the error vector is
@@ -783,6 +834,11 @@ def c04_r5(ctx):
                         if e.vars_of_operand(ln.args[0]) == errvec:
                             return True
         return False
+    # the vector only grows: nothing is taken out of it before it is reported
+    for c in e.calls:
+        if c.name in VEC_SHRINKING and c.path.startswith(("std::vec::Vec::", "std::slice::", "alloc::vec::Vec::")) and c.args \
+                and e.vars_of_operand(c.args[0]) == errvec:
+            ctx.viol((e.id, "errors-removed", c.name), "errors are taken out of the collected list (%s) before it is reported: two rules that failed with the same text, or the earlier ones, are reported as fewer errors than rules failed" % c.name, c.where)
     eq_edges = e.nonempty_edges(lambda op: e.vars_of_operand(op) == errvec, False)
     for (bb, idx) in oks:
         if not e.dominated_by_edges(bb, eq_edges):
